@@ -49,6 +49,7 @@ pub fn scenarios(tier: &str) -> Vec<Scenario> {
     let park1 = TxSpec::Transact { signer: 0, nonce: 1, tgt: Tgt::s(), data: crate::asm::s_set(1, 3, 0, [0; 4]), len: DEFAULT_LEN };
     let park2 = TxSpec::Transact { signer: 0, nonce: 2, tgt: Tgt::s(), data: crate::asm::s_set(1, 5, 0, [0; 4]), len: DEFAULT_LEN };
     let exec0 = TxSpec::Transact { signer: 0, nonce: 0, tgt: Tgt::s(), data: crate::asm::s_set(1, 4, 0, [0; 4]), len: DEFAULT_LEN };
+    let park1b = park1.clone();
     let mut alpha = vec![
         mac("T(set0=1)", Kind::Growth, vec![Step::Tx(s_set(0, 0, 1))]),
         mac("T(s0,n1)", Kind::Growth, vec![Step::Tx(park1.clone())]),
@@ -92,6 +93,33 @@ pub fn scenarios(tier: &str) -> Vec<Scenario> {
             traces: true,
         },
     ];
+    // refused reorgs: too deep below the height, above the height, and — after an accepted reorg has lowered the tip —
+    // within 10 of the height but more than 10 below the highest block ever finalised (the two depth checks sit in
+    // different layers). A refused reorg "changes nothing" like every other refused call.
+    {
+        let set1 = m_block("B(set0=1)", vec![s_set(0, 0, 1)]);
+        let park = m_block("B(T(s0,n1))", vec![park1b.clone()]);
+        let reorg_alpha = vec![
+            set1.clone(), park.clone(), m_mine(1), m_mine(W - 1), m_commit(1),
+            m_reorg(0, RTarget::Back(1)), m_reorg(0, RTarget::Back(5)), m_reorg(0, RTarget::Back(W)), m_reorg(0, RTarget::Back(W + 1)), m_reorg(0, RTarget::Abs(0)), m_reorg(0, RTarget::Abs(1)), m_reorg(0, RTarget::Fwd(1)),
+        ];
+        let mut lowered = start_with_s();
+        lowered.extend(set1.steps.clone());
+        lowered.extend(park.steps.clone());
+        lowered.push(Step::Mine(W - 1));
+        lowered.extend(set1.steps.clone());
+        lowered.push(Step::Reorg(RTarget::Back(5)));
+        v.push(Scenario {
+            name: "refused-reorgs".into(),
+            opts: Opts::new("C05", "reorgs"),
+            starts: vec![("S deployed in block 1".into(), start_with_s()), ("13 blocks finalised, reorged to block 8".into(), lowered)],
+            alphabet: reorg_alpha,
+            bounds: Bounds { depth: if thorough { 4 } else { 3 }, dev: vec![2, 1], dev_total: 3 },
+            weight: 1.5,
+            network: "regtest".into(),
+            traces: true,
+        });
+    }
     // initialise variants on an empty database
     let init_alpha = vec![
         mac("init(0)", Kind::Growth, vec![Step::Init]),
